@@ -93,6 +93,9 @@ OnRet(s, e) ==
      IF s.resp = None /\ Has(Sc, "engine_change")
      THEN \* the agent answered with an unknownEngineID Report only: there is no response to hand out
           << <<"report_returned_as_result", e.kind = "exc">>, <<"non_snmp_exception", e.snmp>> >>
+     ELSE IF s.resp = None /\ Ver # "v3"
+     THEN \* no request of the operation ever reached the agent
+          << <<"request_never_sent", FALSE>> >>
      ELSE IF s.resp = None
      THEN \* the operation never reached the agent: the discovery exchange was refused
           IF Disco = "echo" THEN << <<"disco_matching_msgid_rejected", FALSE>> >>
